@@ -218,6 +218,13 @@ def user_stage(ctx, hist_path, n, thorough):
         lines = f.readlines()
     rnd = random.Random(ctx.seed)
     pick = rnd.sample(lines, min(n, len(lines)))
+    # every fourth history (index 3 mod 4) is replayed on a VIRTUAL channel, whose controller
+    # runs in shared mode: those come from the shared-mode behaviours
+    with open(hist_path.replace("gen_ex", "gen_sh")) as f:
+        sh_lines = f.readlines()
+    sh_pick = rnd.sample(sh_lines, min(len(pick) // 4 + 1, len(sh_lines)))
+    for j in range(3, len(pick), 4):
+        pick[j] = sh_pick[(j // 4) % len(sh_pick)]
     sp = ctx.path("user_sample.ndjson")
     with open(sp, "w") as f:
         f.writelines(pick)
